@@ -180,7 +180,8 @@ def gen_tcp(rng, n, thorough):
             ln = rng.choice(lens) if rng.random() < 0.5 else rng.randrange(0, 300)
             return {"data": rand_bytes(rng, ln).hex() if ln < 3000 else (rand_bytes(rng, 251) * (ln // 251 + 1))[:ln].hex(),
                     "cuts": rand_cuts(rng, ln) if ln < 6000 else rng.choice([[], [1, 2, 3, 40000], [COPYBUF] * 3]),
-                    "end": rng.choice([0, 0, 0, 1]), "wd": rng.random() < 0.3, "wlimit": -1, "wkind": 0, "gate": -1}
+                    "end": rng.choice([0, 0, 0, 1]), "wd": rng.random() < 0.3, "wlimit": -1, "wkind": 0, "gate": -1,
+                    "wrap": rng.choice([0, 0, 1, 2, 2, 2, 3, 4, 5, 6])}
         a, b = side(), side()
         k = rng.random()
         if k < 0.25:       # a write fault somewhere in one destination
@@ -192,6 +193,38 @@ def gen_tcp(rng, n, thorough):
             v = rng.choice([a, b])
             v["gate"] = rng.randrange(0, len(v["data"]) // 2 + 1)
         out.append({"mode": "tcp", "a": a, "b": b})
+    return out
+
+
+def gen_tcp_reply_after_half_close(rng):
+    """the client's shapes, every wrapper configuration on the tunnel side (and on the local side): the local side reaches
+    EOF first ("request"), the tunnel only answers after the relay has half-closed it ("response after request EOF")"""
+    out = []
+    for wt in range(7):
+        for wl in (0, 1, 2, 3):
+            for local_is_a in (True, False):
+                req = rand_bytes(rng, rng.choice([0, 1, 7, 300]))
+                resp = rand_bytes(rng, rng.choice([1, 12, 2000, COPYBUF + 5]))
+                local = {"data": req.hex(), "cuts": rand_cuts(rng, len(req)), "end": 0, "wd": rng.random() < 0.3,
+                         "wlimit": -1, "wkind": 0, "gate": -1, "wrap": wl}
+                tunnel = {"data": resp.hex(), "cuts": rand_cuts(rng, len(resp)) if len(resp) < 6000 else [],
+                          "end": rng.choice([0, 0, 1]), "wd": rng.random() < 0.3, "wlimit": -1, "wkind": 0,
+                          "gate": rng.choice([0, 0, len(resp) // 2]), "wrap": wt}
+                out.append({"mode": "tcp", "a": local, "b": tunnel} if local_is_a else {"mode": "tcp", "a": tunnel, "b": local})
+    return out
+
+
+def gen_udp_gate(rng, n):
+    """iocopy.UDP half-closes the tunnel when the UDP side's reads end; the tunnel (in every wrapper configuration) only
+    delivers the rest of its records afterwards: they must still reach the UDP side"""
+    out = []
+    for i in range(n):
+        ds = [rand_bytes(rng, rng.choice([1, 2, 9, 300])) for _ in range(rng.randrange(1, 6))]
+        s = b"".join(len(d).to_bytes(2, "big") + d for d in ds)
+        uds = [rand_bytes(rng, rng.choice([1, 2, 300])) for _ in range(rng.randrange(0, 3))]
+        out.append({"mode": "udp", "dgrams": [d.hex() for d in uds], "uend": rng.choice([0, 0, 1]), "uwfail": -1,
+                    "tunnel": {"data": s.hex(), "cuts": rand_cuts(rng, len(s)), "end": rng.choice([0, 0, 1]),
+                               "wd": rng.random() < 0.3, "wlimit": -1, "gate": rng.randrange(0, len(s)), "wrap": i % 7}})
     return out
 
 
@@ -234,7 +267,7 @@ def encode_value(dgrams, o, uend):
 def tcp_value(c, o, rng):
     def ep(s):
         return [bytes.fromhex(s["data"]), list(s["cuts"]), s["end"], bool(s["wd"]),
-                None if s["wlimit"] < 0 else [s["wlimit"]], s["wkind"] == 1]
+                None if s["wlimit"] < 0 else [s["wlimit"]], s["wkind"] == 1, s.get("wrap", 0)]
     na = n_reads(len(s_a := bytes.fromhex(c["a"]["data"])), c["a"]["cuts"], COPYBUF) + 4
     nb = n_reads(len(s_b := bytes.fromhex(c["b"]["data"])), c["b"]["cuts"], COPYBUF) + 4
     sched = [rng.randrange(3) for _ in range(rng.randrange(0, na + nb + 1))]
@@ -247,7 +280,8 @@ def tcp_value(c, o, rng):
     t = o["t"]
     ev = t["events"] or []
     obs = [bytes.fromhex(t["to_b"]), bytes.fromhex(t["to_a"]), t["sent"], t["recv"], t["send_err"], t["recv_err"],
-           ev.count("cw:a"), ev.count("cw:b"), ev.count("close:a"), ev.count("close:b"), t["io_after_close"]]
+           ev.count("cw:a"), ev.count("cw:b"), ev.count("close:a"), ev.count("close:b"), t["io_after_close"],
+           ev.count("cwf:a"), ev.count("cwf:b")]
     return [2, ep(c["a"]), ep(c["b"]), sched, obs]
 
 
@@ -278,8 +312,9 @@ def describe(c):
                                                                  (c["tunnel"].get("cuts") or [])[:8], c["tunnel"].get("end"), c["tunnel"].get("wd"))
     if c["mode"] == "udp":
         return "udp tunnel=%s cuts=%s" % (c["tunnel"]["data"][:60], (c["tunnel"].get("cuts") or [])[:8])
-    return "tcp |A|=%d |B|=%d gateA=%s gateB=%s wlimitA=%s wlimitB=%s" % (
-        len(c["a"]["data"]) // 2, len(c["b"]["data"]) // 2, c["a"]["gate"], c["b"]["gate"], c["a"]["wlimit"], c["b"]["wlimit"])
+    return "tcp |A|=%d |B|=%d gateA=%s gateB=%s wlimitA=%s wlimitB=%s wrapA=%s wrapB=%s" % (
+        len(c["a"]["data"]) // 2, len(c["b"]["data"]) // 2, c["a"]["gate"], c["b"]["gate"], c["a"]["wlimit"], c["b"]["wlimit"],
+        c["a"].get("wrap", 0), c["b"].get("wrap", 0))
 
 
 def run(ctx, only_cases=None):
@@ -303,7 +338,11 @@ def run(ctx, only_cases=None):
         cases += gen_rt_random(rng, 400 if thorough else 60)
         cases += gen_rt_big(rng, thorough)
         cases += gen_udp_raw(rng, 3000 if thorough else 300)
-        cases += gen_tcp(rng, 3000 if thorough else 350, thorough)
+        cases += gen_tcp(rng, 3000 if thorough else 300, thorough)
+        cases += gen_tcp_reply_after_half_close(rng)
+        if thorough:
+            cases += gen_tcp_reply_after_half_close(rng) + gen_tcp_reply_after_half_close(rng)
+        cases += gen_udp_gate(rng, 210 if thorough else 42)
     outs = run_batch(binary, cases)
 
     # (iii) the property's predicate, evaluated by the harness on the real relays' own outputs
@@ -354,7 +393,8 @@ def run(ctx, only_cases=None):
     distinct, nontrivial = set(), set()
     dist = {"rt": 0, "udp_raw_malformed": 0, "tcp": 0, "go_only_big": 0, "cut_mid_record": 0, "cut_on_boundary": 0, "not_cut": 0,
             "tunnel_end_error": 0, "end_with_last_chunk": 0, "udp_write_fault": 0, "zero_length_field_hit": 0,
-            "tcp_gate": 0, "tcp_write_fault": 0, "tcp_read_error": 0}
+            "tcp_gate": 0, "tcp_write_fault": 0, "tcp_read_error": 0, "udp_tunnel_gate": 0,
+            "tcp_gated_endpoint_wrap": {str(k): 0 for k in range(7)}, "udp_gated_tunnel_wrap": {str(k): 0 for k in range(7)}}
     for c, o in zip(cases, outs):
         h = vlib.hashlib.sha256(json.dumps(c, sort_keys=True).encode()).hexdigest()
         distinct.add(h)
@@ -376,6 +416,9 @@ def run(ctx, only_cases=None):
         elif c["mode"] == "udp":
             dist["udp_raw_malformed"] += 1
             dist["udp_write_fault"] += 1 if c.get("uwfail", -1) >= 0 else 0
+            if c["tunnel"].get("gate", -1) >= 0:
+                dist["udp_tunnel_gate"] += 1
+                dist["udp_gated_tunnel_wrap"][str(c["tunnel"].get("wrap", 0))] += 1
             if "0000" in c["tunnel"]["data"]:
                 dist["zero_length_field_hit"] += 1
             if (o.get("u1") or {}).get("n_delivered", 0) >= 1:
@@ -383,6 +426,9 @@ def run(ctx, only_cases=None):
         else:
             dist["tcp"] += 1
             dist["tcp_gate"] += 1 if c["a"]["gate"] >= 0 or c["b"]["gate"] >= 0 else 0
+            for side in ("a", "b"):
+                if c[side]["gate"] >= 0:
+                    dist["tcp_gated_endpoint_wrap"][str(c[side].get("wrap", 0))] += 1
             dist["tcp_write_fault"] += 1 if c["a"]["wlimit"] >= 0 or c["b"]["wlimit"] >= 0 else 0
             dist["tcp_read_error"] += 1 if c["a"]["end"] or c["b"]["end"] else 0
             t = o.get("t") or {}
@@ -415,6 +461,10 @@ def run(ctx, only_cases=None):
         "the 20 ms ticker's timing and the sendmmsg batch writer (only used for *net.UDPConn) are not modelled; the ticker only "
         "moves tunnel write boundaries, which the encoder theorem quantifies over",
         "Bidirectional: one loop iteration / CloseWrite / wg.Done / Close is one atomic step (Threads.v); endpoints are scripts",
+        "endpoints are handed to the real relays through the real iocopy.NewReadWriteCloser[WithCloseWrite] in 5 configurations "
+        "(plus a raw conn with / without CloseWrite); when the configuration makes the half-close invisible at the endpoint, the "
+        "'reply after half-close' gate opens 5 ms after the peer endpoint reported its end (timing only decides how likely a broken "
+        "half-close is exposed, never whether the unchanged code passes)",
     ]
     if broken is not None:
         raise broken
